@@ -26,6 +26,23 @@ mod verif_std_conv {
         assert!(back.is_ok());
         assert!(back.unwrap() == d);
     }
+    /// complete (loop-free): a Duration that DECODES is re-encoded without panicking (received values are re-encoded when their
+    /// hash is computed: Signed::verify -> Msg::hash -> canonical -> build), for every (seconds, nanos) a peer can send (F7)
+    #[kani::proof]
+    #[kani::stub(std::backtrace::Backtrace::capture, no_backtrace)]
+    fn duration_build_after_read_total() {
+        let r = proto::std::Duration { seconds: kani::any(), nanos: kani::any() };
+        match <time::Duration as ProtoFmt>::read(&r) {
+            Ok(d) => {
+                let p = d.build();
+                // and what was decoded is what is re-encoded (round trip also at the lower end of the range)
+                let back = <time::Duration as ProtoFmt>::read(&p);
+                assert!(back.is_ok());
+                assert!(back.unwrap() == d);
+            }
+            Err(e) => core::mem::forget(e),
+        }
+    }
     /// complete (loop-free): Timestamp -> Utc never panics
     #[kani::proof]
     #[kani::stub(std::backtrace::Backtrace::capture, no_backtrace)]
